@@ -692,6 +692,15 @@ func checkRecoveryStartsAtCurrentBirthdayBlock(c *Ctx, rule string) {
 				grow(e, depth+1)
 			}
 		}
+		// the stamp handed into a private part of the startup path: what its call sites pass
+		if prm, ok := cell.(*ssa.Parameter); ok && prm.Parent() != syn && p.inRegion(syn, prm.Parent()) {
+			idx := paramIndex(prm.Parent(), prm)
+			for _, cs := range p.realCallers(prm.Parent()) {
+				if args := cs.Common().Args; idx >= 0 && idx < len(args) {
+					grow(args[idx], depth+1)
+				}
+			}
+		}
 		// the stamp handed back by a private part of the startup path: what that part can return
 		var call *ssa.Call
 		idx := 0
@@ -855,32 +864,38 @@ func checkNeutrinoRecoveryWaitsForBackend(c *Ctx, rule string) {
 		return false
 	}
 	n := 0
-	for _, call := range callsNamed(sw, "recovery") {
-		n++
-		q := &PathQuery{Fn: sw, Barrier: isCallNamed("waitUntilBackendSynced")}
-		tgt := call
-		q.Target = func(ins ssa.Instruction, _ *ssa.BasicBlock) bool { return ins == ssa.Instruction(tgt) }
-		q.EdgeBarrier = func(from *ssa.BasicBlock, si int) bool {
-			if len(from.Instrs) == 0 {
-				return false
+	for _, part := range p.regionOf(sw) {
+		for _, call := range callsNamed(part, "recovery") {
+			n++
+			// (the recovery may be started from a private part of the startup path: then the wait precedes the part's call)
+			waited := func(f *ssa.Function, at ssa.Instruction) bool {
+				q := &PathQuery{Fn: f, Barrier: isCallNamed("waitUntilBackendSynced")}
+				tgt := at
+				q.Target = func(ins ssa.Instruction, _ *ssa.BasicBlock) bool { return ins == tgt }
+				q.EdgeBarrier = func(from *ssa.BasicBlock, si int) bool {
+					if len(from.Instrs) == 0 {
+						return false
+					}
+					iff, ok := from.Instrs[len(from.Instrs)-1].(*ssa.If)
+					if !ok {
+						return false
+					}
+					inner, neg := unwrapNot(iff.Cond)
+					if !isNeutrinoRecovery(inner) {
+						return false
+					}
+					// the edge on which the flag is false
+					if neg {
+						return si == 0
+					}
+					return si == 1
+				}
+				return len(q.From(nil)) == 0
 			}
-			iff, ok := from.Instrs[len(from.Instrs)-1].(*ssa.If)
-			if !ok {
-				return false
-			}
-			inner, neg := unwrapNot(iff.Cond)
-			if !isNeutrinoRecovery(inner) {
-				return false
-			}
-			// the edge on which the flag is false
-			if neg {
-				return si == 0
-			}
-			return si == 1
+			skipped := !p.precededInRegion(sw, call, waited, 0)
+			c.Check(rule, "neutrino-recovery-waits-for-synced-backend", call.Pos(), !skipped,
+				"syncWithChain can start the recovery on the neutrino backend without having waited for the backend to be synced: the look-ahead scan stops at the light client's current height, the rest of the chain is only rescanned for already known addresses, and addresses used beyond them are never found")
 		}
-		skipped := len(q.From(nil)) > 0
-		c.Check(rule, "neutrino-recovery-waits-for-synced-backend", call.Pos(), !skipped,
-			"syncWithChain can start the recovery on the neutrino backend without having waited for the backend to be synced: the look-ahead scan stops at the light client's current height, the rest of the chain is only rescanned for already known addresses, and addresses used beyond them are never found")
 	}
 	c.Floor(rule, "recovery starts in syncWithChain", n, 1)
 }
